@@ -178,6 +178,18 @@ def gen_c07(ctx):
                         follow = rng.choice([op_simple(rng, cfg, "noop", 200), op_get(rng, cfg, size=10), op_list(rng, cfg)])
                         yield line(c0, start(rng, cfg, login=False) + [o, follow])
     ctx["scopes"].append("every negative code of %s x {set-up, main command} x {download, upload, listing} x four methods, each followed by a normal operation" % codes)
+    # a refused transfer that was given a callback: never cancelled, cancelled from the start (a flag left over from an earlier
+    # cancelled transfer), cancelled at the second poll - the refusal must still end the operation at that step
+    for mode in "pa":
+        for rfc in (0, 1):
+            for step in ("setup", "main"):
+                for kind in ("get", "put"):
+                    for cancel in ("0", "1", "01"):
+                        cfg = Cfg(rng, "C07", mode=mode, rfc=rfc, ip=4); c0 = str(cfg)
+                        kw = {"setup_code": rng.choice([425, 500, 550])} if step == "setup" else {"main_code": rng.choice([450, 550, 553])}
+                        o = op_get(rng, cfg, cancel=cancel, **kw) if kind == "get" else op_put(rng, cfg, cancel=cancel, **kw)
+                        yield line(c0, start(rng, cfg, login=False) + [o, op_simple(rng, cfg, "noop", 200)])
+    ctx["scopes"].append("refused downloads / uploads with a transfer callback (never cancelled / cancelled from the start / at the second poll) x {set-up, main} x four methods")
     for _ in range(n_of(ctx, 200, 3000)):
         cfg = Cfg(rng, "C07"); c0 = str(cfg)
         ops = start(rng, cfg)
